@@ -174,8 +174,7 @@ def float_relations(chk: Check, n):
             if math.isnan(p):
                 nan_points += 1
                 # scipy's nct.cdf far tail returns nan: only (two-sided, use_t) is affected
-                k3 = ut and alt == "two-sided"
-                chk.fail("power is NaN", dict(input=inp, effect=e, n_obs=nn), finding_key="K3" if k3 else None)
+                chk.fail("power is NaN", dict(input=inp, effect=e, n_obs=nn))
             elif not (-1e-12 <= p <= 1 + 1e-12):
                 chk.fail("power outside [0,1]", dict(input=inp, effect=e, n_obs=nn, power=p))
         tol = 1e-9
@@ -218,12 +217,12 @@ def float_relations(chk: Check, n):
                 chk.fail("power differs from the closed form evaluated with scipy directly",
                          dict(input=inp, effect=e, n_obs=nn, observed=p, expected=want))
     chk.cov["nan_power_points"] = nan_points
-    # corpus: K3 replayed on every run
+    # corpus: the former finding K3 (fixed in /repo by 8d7e1b0) is replayed on every run
     r = tt.Mean("x", effect_size=0.334, n_obs=1000, alpha=0.01, use_t=True, equal_var=True, alternative="two-sided"
                 ).solve_power(A(1000, {"x": 1.0}, {"x": 0.5}, {}), "power")
     chk.case(("corpus", "K3"))
     if math.isnan(r[0].power):
-        chk.fail("power is NaN", dict(input="df 998, alpha 0.01, nc 7.47, two-sided t"), finding_key="K3")
+        chk.fail("power is NaN", dict(input="df 998, alpha 0.01, nc 7.47, two-sided t"))
     # sample the assumed laws on scipy: norm is a location family; nct is stochastically increasing in nc
     worst = 0.0
     xs = np.linspace(-6, 9, 31)
@@ -243,7 +242,7 @@ def main():
     chk.trusted = common.BASE_TRUST + [
         "assumed of the families (hypotheses AltLaws / NormShift / NctMono / Prims.Laws): norm(loc) is the shift of norm(0); "
         "nct(df, nc) is stochastically increasing in nc; cdf monotone with values in [0,1], sf = 1 - cdf — sampled on scipy "
-        "each run (coverage.scipy_*), not proved; scipy's nct returns NaN in the far tail (K3)",
+        "each run (coverage.scipy_*), not proved; scipy's nct returns NaN in the far tail (handled by the code since fix 8d7e1b0)",
         "monotonicity is proved for the Z test (one-sided) and, under NctMono, for the one-sided t test in the effect; the "
         "two-sided cases and monotonicity in n for the t test are checked on the real code, not proved",
         "the effect x n_obs grid of solve_power_from_aggregates is hand-mirrored by the harness (rows_eq_grid)",
